@@ -44,10 +44,10 @@ Proof.
   intros HQ El. destruct (quiescent_at c s a b x HQ) as (tx & ty & Ex & _ & Q & _).
   rewrite El in Ex. injection Ex as <-.
   destruct Q as (Q1 & Q2 & Q3 & Q4 & Q5 & Q6 & Q7 & Q8 & Q9 & Q10 & Q11 & Q12 & Q13 & Q14 & Q15 & Q16 & Q17).
-  eexists. split.
+  set (t1 := set_retx (set_oneshot t []) []).
+  exists t1. split.
   { rewrite segments_nothing_new; try assumption; try (rewrite Q1; reflexivity); try lia.
     rewrite Q8, Q9. reflexivity. }
-  set (t1 := set_retx _ _).
   rewrite (advance_101 t1 Q13 Q14). cbn [fst].
   eexists. rewrite segments_nothing_new.
   - subst t1. tcb_simpl. cbn [map filter app]. reflexivity.
@@ -159,3 +159,148 @@ Section Round.
     rewrite !G6, G7, G8. subst s1. sysr. auto.
   Qed.
 End Round.
+
+(* ---------- any sequence of writes, in both directions ---------- *)
+Definition side_eqb (x y : side) : bool :=
+  match x, y with SA, SA | SB, SB => true | _, _ => false end.
+
+(* each write is followed by two loss-free rounds *)
+Fixpoint write_trace (ws : list (side * list Z)) : list label :=
+  match ws with
+  | [] => []
+  | (x, bytes) :: r => LSend x bytes :: LFair 2 :: write_trace r
+  end.
+
+(* the chunks written by side x, in order *)
+Fixpoint chunks (x : side) (ws : list (side * list Z)) : list (list Z) :=
+  match ws with
+  | [] => []
+  | (y, bytes) :: r => if side_eqb y x then bytes :: chunks x r else chunks x r
+  end.
+
+Definition small_write (c : config) (w : side * list Z) : Prop :=
+  0 < zlen (snd w) <= mtu_of c (fst w) - 50.
+
+Theorem writes_delivered c : forall ws s a b,
+  Quiescent c s a b -> Forall (small_write c) ws ->
+  let s' := run c s (write_trace ws) in
+  (exists a' b', Quiescent c s' a' b') /\
+  forall x, sub_of s' x = sub_of s x ++ concat (chunks x ws) /\
+            del_of s' (other x) = del_of s (other x) ++ chunks x ws.
+Proof.
+  induction ws as [|[y bytes] r IH]; intros s a b HQ Hw; cbn [write_trace chunks].
+  - cbn [run fold_left]. split; [eauto|]. intros x. cbn [concat]. now rewrite !app_nil_r.
+  - inversion Hw as [|w ws' Hw1 Hw2]; subst.
+    change (run c s (LSend y bytes :: LFair 2 :: write_trace r))
+      with (run c (run c s [LSend y bytes; LFair 2]) (write_trace r)).
+    destruct (write_round c s a b y bytes HQ Hw1) as (HQ1 & S1 & S2 & D1 & D2).
+    set (s1 := run c s [LSend y bytes; LFair 2]) in *.
+    destruct (IH s1 _ _ HQ1 Hw2) as [HQ2 Hrest].
+    split; [exact HQ2|]. intros x. destruct (Hrest x) as [R1 R2]. rewrite R1, R2.
+    destruct y, x; cbn [side_eqb other concat] in *;
+      rewrite ?S1, ?S2, ?D1, ?D2, <- ?app_assoc; auto.
+Qed.
+
+Corollary writes_delivered_bytes c ws s a b :
+  Quiescent c s a b -> Forall (small_write c) ws ->
+  let s' := run c s (write_trace ws) in
+  forall x, sub_of s' x = sub_of s x ++ concat (chunks x ws) /\
+            delivered s' (other x) = delivered s (other x) ++ concat (chunks x ws).
+Proof.
+  intros HQ Hw s' x. destruct (writes_delivered c ws s a b HQ Hw) as [_ H].
+  destruct (H x) as [H1 H2]. split; [exact H1|]. unfold delivered. subst s'. rewrite H2.
+  apply concat_app.
+Qed.
+
+(* in a reachable quiescent state everything submitted has been delivered *)
+Lemma quiescent_all_delivered c s a b : SysInv c s -> Quiescent c s a b ->
+  forall x, delivered s (other x) = sub_of s x.
+Proof.
+  intros HI HQ x. pose proof HI as (P & W & E & N).
+  destruct (quiescent_at c s a b (other x) HQ) as (ty & tx & Ey & Ex & Qy & Qx & _).
+  rewrite other_other in Ex.
+  destruct (live_parts c s (other x) ty HI Ey) as (_ & HR & _).
+  destruct (live_parts c s x tx HI Ex) as (HS & _ & Hb & Epv).
+  rewrite other_other in HR. rewrite Epv in HR.
+  pose proof (W x) as Wx. rewrite Epv in Wx. destruct Wx as (Hu & _).
+  destruct HS as (A1 & A2 & A3 & A4 & A5 & A6 & _).
+  destruct Qx as (X1 & X2 & X3 & X4 & X5 & X6 & X7 & _).
+  destruct Qy as (Y1 & Y2 & Y3 & Y4 & Y5 & Y6 & Y7 & Y8 & Y9 & Y10 & Y11 & Y12 & _).
+  destruct HR as (R1 & R2 & R3). rewrite Y1 in R3. cbn [state_eqb] in R3.
+  destruct R3 as (R3 & R4 & R5 & R6 & R7).
+  unfold rcv_n, pv_base in *. rewrite Y1 in *. cbn [fin_consumed b2z my_pv pv_iss pv_sub pv_lim] in *.
+  rewrite Y12, app_nil_r in R6. rewrite R6.
+  assert (Hq : finq tx = false) by (unfold finq; rewrite X1; reflexivity).
+  assert (Hds : data_sent (sub_of s x) tx = zlen (sub_of s x)).
+  { unfold data_sent. rewrite X7. cbn. lia. }
+  assert (En : wsub (rcv_nxt ty) (wadd (iss_of c x) 1) - 0 = zlen (sub_of s x)).
+  { rewrite Y4. destruct x; cbn [sel other] in *; rewrite <- X3, A6, Hq, Hds; cbn [b2z];
+      rewrite wsub_spec, wadd_spec; pose proof (zlen_nonneg (sub_of s SA)); pose proof (zlen_nonneg (sub_of s SB));
+      unfold u32, M32, SEQ_BOUND in *; cbn [cmp_offset] in *; lia. }
+  rewrite En. unfold zlen. rewrite Nat2Z.id. apply firstn_all.
+Qed.
+
+(* the full liveness statement (not claimed): from every reachable state, every continuation
+   without Drop in which each in-flight segment is eventually delivered and both sides keep
+   ticking, emitting and reading reaches within a bounded number of retransmission timeouts a
+   state where everything submitted is delivered and acknowledged and both sides are silent *)
+Definition no_drop (l : label) : bool := match l with LDrop _ _ | LInject _ _ => false | _ => true end.
+Definition all_done (s : sys) : Prop :=
+  delivered s SB = subA s /\ delivered s SA = subB s /\ netA s = [] /\ netB s = [] /\
+  forall x t, end_of s x = ELive t ->
+    retx t = [] /\ out_text t = [] /\ exists t', tcb_segments t = Ok (t', []).
+Definition C01_liveness_full_stmt : Prop :=
+  forall (c : config) (b : bool) (ls : list label),
+    cfg_ok c -> forallb no_inject ls = true -> sub_bound (run c (init_sys b) ls) ->
+    let s := run c (init_sys b) ls in
+    (exists tA tB, endA s = ELive tA /\ endB s = ELive tB /\ st tA = Established /\ st tB = Established) ->
+    exists k, forall k', (k <= k')%nat -> all_done (run c s [LFair k']).
+
+(* ---------- quiescent states are reachable: the three-way handshake of the example ---------- *)
+From Elvis Require Import Proofs.TcbSafetyEx.
+
+Definition hs_trace : list label := [LOpen SA; LFair 2].
+Definition hs_state : sys := run ex_cfg (init_sys true) hs_trace.
+Definition hs_tA : tcb := Eval vm_compute in
+  match endA hs_state with ELive t => t | _ => tcb_open 0 0 0 0 end.
+Definition hs_tB : tcb := Eval vm_compute in
+  match endB hs_state with ELive t => t | _ => tcb_open 0 0 0 0 end.
+
+Lemma hs_quiescent : Quiescent ex_cfg hs_state (wadd (issA ex_cfg) 1) (wadd (issB ex_cfg) 1).
+Proof.
+  exists hs_tA, hs_tB.
+  split; [vm_compute; reflexivity|]. split; [vm_compute; reflexivity|].
+  unfold quiet, u32.
+  vm_compute. repeat split; try reflexivity; try (intros H; discriminate H).
+Qed.
+
+(* handshake, then writes in both directions (including one of exactly one MSS = 50 bytes) *)
+Definition ex_writes : list (side * list Z) :=
+  [(SA, bytes_from 1 50); (SB, bytes_from 9 37); (SA, bytes_from 100 1); (SB, bytes_from 77 1450)].
+
+Lemma ex_writes_small : Forall (small_write ex_cfg) ex_writes.
+Proof.
+  unfold ex_writes.
+  repeat (apply Forall_cons; [vm_compute; split; [reflexivity|intros H; discriminate H]|]).
+  apply Forall_nil.
+Qed.
+
+Lemma ex_live :
+  let s := run ex_cfg (init_sys true) (hs_trace ++ write_trace ex_writes) in
+  (exists a b, Quiescent ex_cfg s a b) /\
+  delivered s SB = subA s /\ delivered s SA = subB s /\
+  length (subA s) = 51%nat /\ length (subB s) = 1487%nat.
+Proof.
+  intros s. subst s. unfold run. rewrite fold_left_app. fold (run ex_cfg (init_sys true) hs_trace).
+  fold hs_state. fold (run ex_cfg hs_state (write_trace ex_writes)).
+  destruct (writes_delivered ex_cfg ex_writes hs_state _ _ hs_quiescent ex_writes_small) as [HQ Hx].
+  destruct (writes_delivered_bytes ex_cfg ex_writes hs_state _ _ hs_quiescent ex_writes_small SA) as [A1 A2].
+  destruct (writes_delivered_bytes ex_cfg ex_writes hs_state _ _ hs_quiescent ex_writes_small SB) as [B1 B2].
+  cbn [other sub_of] in *.
+  split; [exact HQ|].
+  assert (E0 : subA hs_state = [] /\ subB hs_state = [] /\ delivered hs_state SA = [] /\ delivered hs_state SB = [])
+    by (vm_compute; auto).
+  destruct E0 as (E1 & E2 & E3 & E4).
+  rewrite A1, A2, B1, B2, E1, E2, E3, E4. cbn [app].
+  split; [reflexivity|]. split; [reflexivity|]. split; vm_compute; reflexivity.
+Qed.
